@@ -6,7 +6,7 @@ From Interval Require Import Tactic.
 From OV.base Require Import Num.
 From OV.gen Require Import Gen_Math Gen_TensorMathFun Gen_TensorMathAD.
 From OV.model Require Import M_C10.
-From OV.proofs Require L_C12.
+From OV.proofs Require L_C12 L_C12_RD.
 Local Open Scope R_scope.
 
 (* ------------------------------------------------------------------ (1) custom_root: tangent solve + scalar implicit function theorem *)
@@ -98,7 +98,7 @@ Lemma log_rd_plain_exact l1 l2 : 0 < l1 -> 0 < l2 -> l1 <> l2 ->
   @_relative_log_difference_no_tolerance_check R NumR l1 l2 = (ln l1 - ln l2) / (l1 - l2).
 Proof. exact (L_C12.log_relative_difference_exact l1 l2). Qed.
 
-Ltac adnum := cbv beta iota zeta delta [ad_rel_log_taylor ad_rel_log_plain ad_rel_log sort_abs log_rd pow_rd nlog1p rd_guard];
+Ltac adnum := cbv beta iota zeta delta [ad_rel_log_taylor ad_rel_log_plain ad_rel_log rd_guard];
               unfold_num; q2r.
 
 Lemma ad_plain_exact l1 l2 : 0 < l1 -> 0 < l2 -> l1 <> l2 ->
@@ -199,45 +199,19 @@ Proof.
     unfold Rmin. revert Hc. unfold nmin, Rmin. unfold_num. rcases; intros; destruct (Rle_dec l1 l2); lra.
 Qed.
 
-(* --- the kernels actually wired into log_symm / pow_symm (hand model: argsort by magnitude, log1p) --- *)
-Lemma log_rd_exact l1 l2 : 0 < l1 -> 0 < l2 -> l1 <> l2 -> @log_rd R NumR l1 l2 = (ln l1 - ln l2) / (l1 - l2).
-Proof.
-  intros H1 H2 Hne. adnum. cbv beta iota zeta delta [nunit nZ]. unfold_num. q2r.
-  rcases; cbn [fst snd].
-  - assert (E : 1 + (l2 / l1 - 1) = l2 * / l1) by (field; lra). rewrite E.
-    rewrite (ln_mult l2 (/ l1)) by (first [lra | apply Rinv_0_lt_compat; lra]). rewrite (ln_Rinv l1) by lra. field. split; lra.
-  - assert (E : 1 + (l1 / l2 - 1) = l1 * / l2) by (field; lra). rewrite E.
-    rewrite (ln_mult l1 (/ l2)) by (first [lra | apply Rinv_0_lt_compat; lra]). rewrite (ln_Rinv l2) by lra. field. split; lra.
-Qed.
-
-Lemma rpow_split b m : 0 < b -> exp ((m - 1) * ln b) = exp (m * ln b) / b.
-Proof.
-  intros Hb. replace ((m - 1) * ln b) with (m * ln b + - ln b) by ring.
-  rewrite exp_plus, exp_Ropp, exp_ln by assumption. reflexivity.
-Qed.
-
-Lemma pow_rd_core s b m : 0 < s -> 0 < b -> s <> b ->
-  exp ((m - 1) * ln b) * (exp (m * ln (s / b)) - 1) / (s / b - 1) = (exp (m * ln s) - exp (m * ln b)) / (s - b).
-Proof.
-  intros Hs Hb Hne. rewrite rpow_split by assumption.
-  assert (EL : ln (s / b) = ln s + - ln b).
-  { unfold Rdiv. rewrite (ln_mult s (/ b)) by (first [lra | apply Rinv_0_lt_compat; lra]). rewrite (ln_Rinv b) by lra. reflexivity. }
-  rewrite EL.
-  replace (m * (ln s + - ln b)) with (m * ln s + - (m * ln b)) by ring. rewrite exp_plus, exp_Ropp.
-  assert (0 < exp (m * ln b)) by apply exp_pos. field. repeat split; lra.
-Qed.
+(* --- the kernels actually wired into log_symm / pow_symm: the REGENERATED kernels _log_relative_difference / _pow_relative_difference
+   of OV.gen.Gen_TensorMathFun (argsort by magnitude, log1p, the nearOne / xIsZero selects of the expm1(m log1p x)/x form); the
+   proofs are those of C12 (proofs/L_C12_RD.v), restated --- *)
+Lemma log_rd_exact l1 l2 : 0 < l1 -> 0 < l2 -> l1 <> l2 -> @_log_relative_difference R NumR l1 l2 = (ln l1 - ln l2) / (l1 - l2).
+Proof. exact (L_C12_RD.log_relative_difference_argsort_exact l1 l2). Qed.
 
 (* x ** m for x > 0 is exp (m ln x) (= Rpower x m) *)
 Lemma pow_rd_exact l1 l2 m : 0 < l1 -> 0 < l2 -> l1 <> l2 ->
-  @pow_rd R NumR l1 l2 m = (Rpower l1 m - Rpower l2 m) / (l1 - l2).
-Proof.
-  intros H1 H2 Hne. unfold Rpower. adnum. cbv beta iota zeta delta [nunit nZ nzero]. unfold_num. q2r.
-  assert (Q1 : 0 < l1 / l2) by (apply Rdiv_lt_0_compat; lra).
-  assert (Q2 : 0 < l2 / l1) by (apply Rdiv_lt_0_compat; lra).
-  rcases; cbn [fst snd]; unfold npowr, nzero, nZ; unfold_num; q2r; rcases; try lra.
-  - rewrite pow_rd_core by lra. field. lra.
-  - rewrite pow_rd_core by lra. reflexivity.
-Qed.
+  @_pow_relative_difference R NumR l1 l2 m = (Rpower l1 m - Rpower l2 m) / (l1 - l2).
+Proof. exact (L_C12_RD.pow_relative_difference_argsort_exact l1 l2 m). Qed.
+(* coinciding arguments (the xIsZero select of the kernel): the derivative m x^(m-1) *)
+Lemma pow_rd_confluent l m : 0 < l -> @_pow_relative_difference R NumR l l m = m * Rpower l (m - 1).
+Proof. exact (L_C12_RD.pow_relative_difference_argsort_confluent l m). Qed.
 
 (* --- the x2 == x1 guard of the helper --- *)
 Lemma rd_guard_equal (df : R -> R) rel x : @rd_guard R NumR df rel x x = df x.
